@@ -102,6 +102,50 @@ def record_entry_parts(fn_body, callee_pred, all_kinds):
     return (out if known and seen else None)
 
 
+def capture_by_name(ctx, rid, core):
+    """what a new function captures depends on the free names only (shared with C05: an uncaptured name stays bare in the emitted source)"""
+    hev = core.hir_fn(EVAL)
+    m0 = H.main_match(hev["body"], "ast::Expr")
+    lam = None
+    for a in (m0["arms"] if m0 else []):
+        if any(H.last(v) == "Lambda" for v in H.pat_variants(a["pat"])):
+            lam = a
+    if lam is None:
+        ctx.inst(rid, "capture#depends-on-name-only", None, "no Lambda arm found in the evaluator", None)
+        return
+    # what is captured depends on the name only: a looked-up value is stored whatever it is
+    n_ins = 0
+    for n, e, g in scope.sites(lam["body"], lambda n: H.kind(n) == "MethodCall" and n["name"] == "insert" and len(n.get("args", [])) == 2, S.Env()):
+        conds = [gg for gg in g if gg[0] == "if" and gg[2] is True]
+        value_locals = set()
+        tests = []
+        for gg in conds:
+            stack = [gg[1]]
+            while stack:
+                c = H.strip(stack.pop())
+                if H.kind(c) == "Binary" and c["op"] == "And":
+                    stack += [c["l"], c["r"]]
+                elif H.kind(c) == "LetExpr":
+                    if any(H.kind(y) == "MethodCall" and y.get("def") == ENV + "get" for y in H.walk(c["init"])):
+                        value_locals |= set(H.pat_binds(c["pat"]))
+                    else:
+                        tests.append(c)
+                else:
+                    tests.append(c)
+        for gg in g:
+            if gg[0] == "arm" and len(gg) > 3 and any(H.kind(y) == "MethodCall" and y.get("def") == ENV + "get" for y in H.walk(gg[3])):
+                value_locals |= set(H.pat_binds(gg[1]["pat"]))
+        if not value_locals or not any(H.path_local(a_) in value_locals for a_ in n["args"]):
+            continue
+        n_ins += 1
+        on_value = [H.loc(t) for t in tests if any(H.path_local(y) in value_locals for y in H.walk(t) if H.kind(y) == "Path")]
+        ctx.inst(rid, "capture#depends-on-name-only", not on_value,
+                 "the looked-up value is stored under %d further condition(s); conditions that inspect the value itself (a variable bound to such a value would silently stay uncaptured): %s" % (len(tests), on_value or "none"), H.loc(n))
+    if n_ins == 0:
+        ctx.inst(rid, "capture#depends-on-name-only", None, "the store of a looked-up value into the captured scope was not found in this form", H.loc(lam["body"]))
+
+
+
 class _Only:
     """a view of ctx that records only the instances whose key matches"""
 
@@ -359,6 +403,8 @@ def run(ctx):
                 elif seeded is None and H.kind(H.strip(x["init"])) == "Call" and H.last(H.strip(x["init"]).get("def") or "") == "new":
                     seeded = False  # starts empty: must be filled by one of the forms above
         ctx.inst("C04.R2", "capture#parameters-excluded", seeded, "the bound set handed to the capture analysis is seeded with the parameter names: %s" % seeded, H.loc(lam["body"]))
+
+    capture_by_name(ctx, "C04.R2", core)
 
     # ---------------- R3 arity classes and positional binding
     ctx.rule("C04.R3", "the three arity classes are tested identically in check_arity's built-in copy, its lambda copy and can_accept (== n; >= min; >= min && <= max); get_arity classifies by rest / all-required / optional; required, optional and rest parameters bind positionally", floor=10)
